@@ -3,6 +3,20 @@ pkg = test package under harness/, level = evidence level, jobs[tier] = list of
 {part, shards, checks (rapid cases per shard), journal, timeout, scale}."""
 
 CHECKS = {
+    'C16': dict(pkg='c16', level='exploration',
+        technique='differential property testing over generated programs: positional functions built with reflect.FuncOf/MakeFunc from the C15 type grammar with generated name lists, params around the arity boundary; oracle = element-wise encoding/json independent of the synthetic-struct implementation; overlapping calls of one handler with tagged arguments; Args/Obj against element-wise json.Unmarshal with prior-value comparison',
+        level_text='Positional handlers of arity 0-6 must accept exactly arrays of n elements (element i into Xi, null allowed) or objects over the given names, call the function once with those values and otherwise report InvalidParams without calling it; overlapping calls must each see their own arguments; Args decodes/encodes position by position with exact length and skips nil slots, Obj touches only the targets whose keys are present. Exploration.',
+        level_note='Trusts the element-wise reference in harness/c16; unknown keys nested inside struct-typed arguments, case variants of names and null/absent params are dont-care.',
+        jobs=dict(
+        quick=[dict(part='positional', shards=3, checks=8000), dict(part='concurrent', shards=2, checks=40), dict(part='argsobj', shards=2, checks=10000)],
+        thorough=[dict(part='positional', shards=10, checks=200000, timeout=3000), dict(part='concurrent', shards=4, checks=2000, timeout=3000), dict(part='argsobj', shards=6, checks=300000, timeout=3000)])),
+    'C15': dict(pkg='c15', level='exploration',
+        technique='differential property testing over generated programs: function types built with reflect.FuncOf/StructOf from a type grammar, function values from reflect.MakeFunc recording their calls, all SetStrict/AllowArray settings, params derived from the type; oracle = encoding/json applied directly to the declared parameter type after an independently computed array-to-field mapping, and the documented signature schemes for Check',
+        level_text='For generated (function type, options, params) triples the wrapper must either call the function exactly once with the value encoding/json decodes (same context, results and errors passed through) or, without calling it, report InvalidParams; it must never panic; Check must accept exactly the documented schemes. Exploration over programs x configurations x inputs.',
+        level_note='Trusts the reference decoding in harness/c15 (encoding/json plus the documented mapping); case-colliding field names, arrays for structs without eligible fields and (error, error) results are dont-care.',
+        jobs=dict(
+        quick=[dict(part='triples', shards=3, checks=8000)],
+        thorough=[dict(part='triples', shards=12, checks=200000, timeout=3000)])),
     'C14': dict(pkg='c14', level='exploration',
         technique='differential property testing: rapid-generated error trees (all user-visible constructors, wrapping, joining, arbitrary int32 codes) returned by a handler of a real Server and observed by a real Client in a bubble, against an independent re-implementation of the documented classification; algebraic laws of Code.Err and Error.WithData',
         level_text='Generated error values (and unmarshalable results) travel handler -> Server -> wire -> Client; the client-side error must have the ErrorCode of the handler error, *Error code/message/data must arrive unchanged, context errors must surface as the sentinel values, an unmarshalable result must become an error response (a missing response is a detected bubble deadlock). ErrorCode(c.Err()) == c and the WithData laws are checked for arbitrary int32 codes. Exploration.',
